@@ -99,19 +99,21 @@ CLAIMS = {
 
 def _partial(pid, what, sec):
     return dict(
-        text="PARTIAL (order across interleaved branches). Proved on the reference semantics, for every program, valuation "
-             "sequence and registration / observer configuration: (1) %s_sync_partial - under the schedule in which every service is completed from inside its "
+        text="Proved on the reference semantics, for every program, valuation sequence, schedule and registration / observer "
+             "configuration: the MONITOR THEOREMS listed at the end of this text (per task instance: sequencing, fork / join, "
+             "decisions - what the property states, for all schedules), and in addition (1) %s_sync_partial - under the schedule in which every service is completed from inside its "
              "service-started notification the interpreter issues exactly the denotation den_* of coq/RefDen.v, whose clause "
              "for this property reads: %s; (2) ALL schedules (%s_confluence, RefConfluence.v): for every completion order, every "
              "set of immediately completed services and every history incl. junk, for an oracle that does not depend on the "
              "query counter, the history of a completed order is a PERMUTATION of that denotation (every event exactly as often "
              "as the denotation says) and no event ever occurs more often in an incomplete history; (3) for ALL schedules and "
              "histories the order completes exactly when nothing is outstanding (C01 theorem) and every accepted completion is "
-             "delivered into the waiting service (RefProgress): no wake-up is lost, nothing is deferred. What is not proved is "
-             "the relative order of events across interleaved branches beyond the re-entrant schedule (for that the property's "
-             "behaviour is the definition of the reference semantics); it is compared on every run with the implementation "
-             "and with the faithful net model (all generated programs, completion orders incl. re-entrant ones, valuations), "
-             "under the projection of the trace this property is about. Known findings (parallel-loop shapes D7) are "
+             "delivered into the waiting service (RefProgress): no wake-up is lost, nothing is deferred. What no theorem "
+             "fixes is how the events of DIFFERENT task instances interleave with each other inside one call (schedule-dependent "
+             "by nature; for the re-entrant schedule it is the denotation); the full traces are compared on every run with the "
+             "implementation and with the faithful net model (all generated programs, completion orders incl. re-entrant ones, "
+             "valuations), under the projection of the trace this property is about, and on the refinement fragment the net "
+             "model's trace IS the reference trace. Known findings (parallel-loop shapes D7) are "
              "reported as KNOWN-FINDING." % (pid, what, pid),
         technique="Coq proof (mutual induction over the interpreter against a denotational reading; C01 invariant) + "
                   "differential correspondence with two executable models",
